@@ -280,3 +280,277 @@ class C04(runner.Check):
 
 
 CHECK = C04()
+
+
+# =============================================================================================
+# crash sweep on the hierarchical (nested / parallel configurations) and async classes
+# =============================================================================================
+# No Lean model of these engines is involved here: the containment clauses are stated directly (Python oracle) on
+# the implementation's trace, and the survivor-vs-fresh differential decides "nothing is left behind".
+
+from .. import aflat, anested  # noqa: E402
+
+NA_SETUPS = [  # (label, class, nested configuration?, async?)
+    ('AsyncMachine', 'AsyncMachine', False, True),
+    ('flat-on-HierarchicalAsyncMachine', 'HierarchicalAsyncMachine', False, True),
+    ('HierarchicalMachine', 'HierarchicalMachine', True, False),
+    ('LockedHierarchicalMachine', 'LockedHierarchicalMachine', True, False),
+    ('HierarchicalAsyncMachine', 'HierarchicalAsyncMachine', True, True),
+]
+FIN, EXC = SLOT['finalize_event'], SLOT['on_exception']
+
+
+def na_cls(name):
+    import transitions.extensions as ext
+    return getattr(ext, name)
+
+
+def na_run(d, setup, prepare=None):
+    _l, clsname, nested, is_async = setup
+    r = (anested.NRun7 if nested else aflat.Run7)(d, na_cls(clsname), is_async)
+    if prepare:
+        prepare(r)
+    return r.run()
+
+
+def na_clone(d, history=None):
+    nested = getattr(d, 'nested', False)
+    d2 = (anested.from_json if nested else aflat.from_json)((anested.to_json if nested else aflat.to_json)(d))
+    for s_new, s_old in zip(d2.states, d.states):
+        for k in ('parent', 'children', 'parallel', 'init_child'):
+            if k in s_old:
+                s_new[k] = s_old[k]
+    for (e1, ts1), (e2, ts2) in zip(d2.events, d.events):
+        for t1, t2 in zip(ts1, ts2):
+            if 'local' in t2:
+                t1['local'] = t2['local']
+    if history is not None:
+        d2.history = list(history)
+    return d2
+
+
+def na_base(rng, setup):
+    kn = flat.Knobs(max_models=2, p_unknown_event=0.0, max_history=4, p_queued=0.0, max_states=5, max_events=2)
+    d = flat.gen_flat(rng, kn)
+    d.qmode = rng.choice([0, 0, 1])
+    d.queued = bool(d.qmode)
+    d.kinds = {}
+    d.const = {}
+    if setup[2]:
+        anested.impose_tree(d, rng)
+    return d
+
+
+def stage_of(d, cid):
+    """callbacks that share a gather stage with `cid` (a callback id may be registered in several lists)"""
+    out = set([cid])
+    for _k, l in aflat.stage_lists(d):
+        if cid in l:
+            out.update(l)
+    return out
+
+
+def na_oracle(d, setup, clean, X, cid, k, handlers):
+    """containment clauses on the crash trace X (clean = trace of the same input without the failure)"""
+    out = []
+    # locate the failing invocation
+    cnt = 0
+    pcall = None
+    for i, it in enumerate(X):
+        if it[0] == 'call' and it[2] == cid:
+            if cnt == k:
+                pcall = i
+                break
+            cnt += 1
+    if pcall is None:
+        return [('crash-point-not-reached', {})]
+    if X[:pcall + 1] != clean[:pcall + 1]:
+        return [('trace-before-the-failure-differs-from-the-clean-run', {'at': pcall})]
+    tag, st_at, m = X[pcall][4], X[pcall][5], X[pcall][3]
+    pdone = next((i for i in range(pcall, len(X)) if X[i][0] == 'done' and X[i][1] == cid and X[i][2] == 1), None)
+    if pdone is None:
+        return [('failing-callback-did-not-raise', {})]
+    exc = X[pdone][3:5]
+    pend = next((i for i in range(pdone, len(X)) if X[i][0] in ('ret', 'raised') and X[i][1] == tag), None)
+    if pend is None:
+        return [('event-without-outcome', {})]
+    tail = X[pdone + 1:pend]
+    siblings = stage_of(d, cid) if setup[3] else set()
+    calls = [it for it in tail if it[0] == 'call']
+    later = [it for it in calls if it[1] not in (FIN, EXC) and not (it[2] in siblings and it[4] == tag)]
+    info = {'failing': common.show_item(X[pcall]), 'tail': [common.show_item(i) for i in X[pcall:pend + 1][:30]]}
+    if later:
+        out.append(('callback-ran-after-the-failure', dict(info, later=[common.show_item(i) for i in later[:4]])))
+    in_fin = X[pcall][1] == FIN
+    in_exc = X[pcall][1] == EXC
+    if not in_fin:
+        fin_calls = [it[2] for it in calls if it[1] == FIN]
+        want = list(d.finalize)
+        # finalize callbacks run exactly once each, in order, up to the first one that raises
+        fin_raised = [it[1] for it in tail if it[0] == 'done' and it[2] == 1 and it[1] in want]
+        if fin_raised and not setup[3]:
+            want = want[:want.index(fin_raised[0]) + 1]
+        if fin_calls != want:
+            out.append(('finalize-callbacks-not-run-exactly-once', dict(info, got=fin_calls, expected=want)))
+    if not in_fin and not in_exc:
+        exc_calls = [it[2] for it in calls if it[1] == EXC]
+        hraised = [it for it in tail if it[0] == 'done' and it[2] == 1 and it[1] in handlers]
+        want = list(handlers)
+        if hraised and not setup[3]:
+            want = want[:want.index(hraised[0][1]) + 1]
+        if exc_calls != want:
+            out.append(('on_exception-handlers-wrong', dict(info, got=exc_calls, expected=want)))
+        o = X[pend]
+        if not handlers:
+            if not (o[0] == 'raised' and tuple(o[2:4]) == tuple(exc)):
+                out.append(('exception-did-not-reach-the-caller', dict(info, outcome=common.show_item(o))))
+        elif not hraised:
+            if o[0] != 'ret':
+                out.append(('handled-exception-still-raised', dict(info, outcome=common.show_item(o))))
+    # state: frozen from the failure on (no rollback, nothing else)
+    bad_state = [it for it in calls if it[4] == tag and it[3] == m and it[5] != st_at]
+    if bad_state and not in_fin:
+        out.append(('state-changed-after-the-failure', dict(info, calls=[common.show_item(i) for i in bad_state[:3]])))
+    return out
+
+
+def na_judge(case):
+    """returns (list of (what, details), info)"""
+    setup = NA_SETUPS[case['setup']]
+    rng = random.Random(case['sub'])
+    base = na_base(rng, setup)
+    if 'history' in case:
+        base.history = [tuple(c) for c in case['history']]
+    clean = na_run(na_clone(base), setup)
+    calls = [(i, it) for i, it in enumerate(clean.items) if it[0] == 'call']
+    if not calls:
+        return [], {'positions': 0}
+    seen, order = {}, {}
+    for i, it in enumerate(clean.items):
+        if it[0] == 'call':
+            order[i] = seen.get(it[2], 0)
+            seen[it[2]] = order[i] + 1
+    if case.get('pos') is not None:
+        chosen = [c for c in calls if c[0] == case['pos']]
+    else:
+        chosen = calls if case.get('all') else rng.sample(calls, min(6, len(calls)))
+    out = []
+    evs = [e for e, _ in base.events]
+    npos = 0
+    for pos, it in chosen:
+        cid, k = it[2], order[pos]
+        for with_h in (False, True):
+            if case.get('handlers') is not None and with_h != case['handlers']:
+                continue
+            d = na_clone(base)
+            kind = 4 if rng.random() < 0.35 else 3
+            d.script[(cid, k)] = ((), ('raise', kind, rng.randrange(3)))
+            handlers = []
+            if with_h:
+                hid = max(d.cb_slot) + 1
+                d.cb_slot[hid] = EXC
+                d.on_exception = [hid]
+                handlers = [hid]
+            else:
+                d.on_exception = []
+            crash = na_run(na_clone(d), setup)
+            # the clean reference has the same handlers (an invalid trigger's MachineError is routed to them too)
+            dc = na_clone(d)
+            del dc.script[(cid, k)]
+            if (cid, k) in base.script:
+                dc.script[(cid, k)] = base.script[(cid, k)]
+            clean_v = na_run(dc, setup)
+            npos += 1
+            info = {'setup': setup[0], 'pos': pos, 'slot': common.SLOTS[it[1]], 'handlers': with_h, 'queued': bool(d.qmode)}
+            fs = [(w, dict(dd, **info)) for w, dd in na_oracle(d, setup, clean_v.items, crash.items, cid, k, handlers)]
+            if crash.bad:
+                fs.append(('arguments', dict(info, bad=crash.bad[:3])))
+            # survivor vs fresh
+            cont = [(flat.TRIGGER, rng.choice(d.models), rng.choice(evs)) for _ in range(3)]
+            surv = na_run(na_clone(d, list(d.history) + cont), setup)
+            n0 = len(crash.items)
+            if surv.items[:n0] != crash.items:
+                fs.append(('crash-run-not-reproducible', info))
+            else:
+                states = {mid: getattr(mo, 'state') for mid, mo in crash.model_objs.items() if 'state' in mo.__dict__}
+
+                def place(r, crash=crash, states=states):
+                    for mid, stv in states.items():
+                        if mid in d.models:
+                            r.machine.set_state(stv, r.model_objs[mid])
+                    r.counts = dict(crash.counts)
+                    r.next_tag = crash.next_tag
+                    r.tag_event = dict(crash.tag_event)
+                try:
+                    fresh = na_run(na_clone(d, cont), setup, prepare=place)
+                    a, b = surv.items[n0:], fresh.items
+                    if a != b or surv.final() != fresh.final():
+                        kk = next((i for i, (x, y) in enumerate(zip(a, b)) if x != y), min(len(a), len(b)))
+                        fs.append(('survivor-differs-from-fresh', dict(
+                            info, first_difference_at=kk, survivor=[common.show_item(i) for i in a[max(0, kk - 3):kk + 4]],
+                            fresh=[common.show_item(i) for i in b[max(0, kk - 3):kk + 4]],
+                            survivor_final=str(surv.final()), fresh_final=str(fresh.final()))))
+                except ValueError as e:
+                    # the survivor's state value is not a registered state: the failure left garbage behind
+                    fs.append(('state-after-failure-not-registered', dict(info, err=repr(e)[:200], states=str(states))))
+            for w, dd in fs:
+                out.append((w, dict(dd, pos=pos, handlers=with_h)))
+            if out:
+                return out, {'positions': npos}
+    return out, {'positions': npos}
+
+
+def na_chunk(seed, idx, n, tier):
+    rng = random.Random('C04/na/%d/%d' % (seed, idx))
+    ex = Exploration()
+    for _ in range(n):
+        case = {'setup': rng.randrange(len(NA_SETUPS)), 'sub': rng.randrange(1 << 30), 'all': tier == 'thorough'}
+        fs, inf = na_judge(case)
+        ex.evaluations += inf['positions']
+        ex.traces_validated += inf['positions']
+        ex.nontrivial.add('na/%d/%d' % (case['setup'], case['sub']))
+        h = ex.stats.setdefault('class', {})
+        lab = NA_SETUPS[case['setup']][0] + ' (oracle)'
+        h[lab] = h.get(lab, 0) + inf['positions']
+        for w, dd in fs:
+            c2 = dict(case, pos=dd.get('pos'), handlers=dd.get('handlers'))
+            ex.failures.append(Failure('monitor', w, c2, dd, signature='C04.na.' + w))
+        if len(ex.failures) >= 2:
+            break
+    return ex
+
+
+def na_shrink_steps(case):
+    setup = NA_SETUPS[case['setup']]
+    base = na_base(random.Random(case['sub']), setup)
+    hist = case.get('history', [list(c) for c in base.history])
+    for i in range(len(hist) - 1, -1, -1):
+        yield dict(case, history=hist[:i] + hist[i + 1:], pos=None)
+
+
+_orig_explore = C04.explore
+_orig_replay = C04.replay
+
+
+def _explore(self, tier, seed):
+    ex = _orig_explore(self, tier, seed)
+    nch, per = (16, 10) if tier == 'quick' else (32, 30)
+    for part in runner.parallel(na_chunk, [(seed, i, per, tier) for i in range(nch)]):
+        ex.merge(part)
+    return ex
+
+
+def _replay(self, path):
+    import json
+    with open(path) as fh:
+        payload = json.load(fh)
+    if 'case' in payload and 'setup' in payload['case']:
+        fs, _i = na_judge(payload['case'])
+        for w, dd in fs:
+            print('FAIL', w, json.dumps(dd, default=str)[:2000])
+        return 1 if fs else 0
+    return _orig_replay(self, path)
+
+
+C04.explore = _explore
+C04.replay = _replay
